@@ -4,6 +4,7 @@ use crate::common::*;
 use crate::refsweep::{self, RefCfg};
 use crate::spaces::{self, Space};
 use crate::statemodel::{Op, VmModel};
+use crate::wide;
 use frmc_core::jobj;
 use frmc_core::json::J;
 use frmc_core::space;
@@ -17,8 +18,30 @@ struct RunOut {
     capped: bool,
 }
 
-fn explore(slots: usize, values: usize, depth: usize, threads: usize, state_cap: usize) -> RunOut {
-    let model = VmModel { slots, values, max_ops: depth as u32 };
+/// One configuration of the state model.
+#[derive(Clone, Debug)]
+struct Cfg {
+    slot_ids: Vec<usize>,
+    values: usize,
+    depth: usize,
+    single: usize,
+    burst: bool,
+}
+
+fn dense(slots: usize, values: usize, depth: usize) -> Cfg {
+    Cfg { slot_ids: (0..slots).collect(), values, depth, single: slots, burst: false }
+}
+fn sparse(ids: &[usize], values: usize, depth: usize) -> Cfg {
+    Cfg { slot_ids: ids.to_vec(), values, depth, single: ids.len(), burst: false }
+}
+/// `slots` dense slots, individual saves for the first `single` only, plus Burst operations
+fn long_frame(slots: usize, single: usize, values: usize, depth: usize) -> Cfg {
+    Cfg { slot_ids: (0..slots).collect(), values, depth, single, burst: true }
+}
+
+fn explore(c: &Cfg, threads: usize, state_cap: usize) -> RunOut {
+    let depth = c.depth;
+    let model = VmModel { slots: c.slot_ids.len(), values: c.values, max_ops: depth as u32, slot_ids: c.slot_ids.clone(), single: c.single, burst: c.burst };
     // stateright numbers the initial state 1 and skips (without checking) every state whose depth
     // is >= the target: a state reached by n operations is checked iff n + 1 < target. The model
     // itself stops expanding after `depth` operations (the depth is part of the state), so the
@@ -36,24 +59,31 @@ fn explore(slots: usize, values: usize, depth: usize, threads: usize, state_cap:
 
 pub fn run_c20(cx: &Ctx) -> i32 {
     // (slots, values, depth)
-    let configs: Vec<(usize, usize, usize)> = if cx.quick() { vec![(2, 2, 10), (3, 3, 7), (5, 1, 8)] } else { vec![(2, 2, 11), (3, 3, 8), (6, 1, 9)] };
+    // dense: (slots, values, operations); sparse: real slot indices an implementation could confuse
+    // (bit masks, windows); long-frame: one frame's undo log grows past small scan windows / inline buffers
+    let configs: Vec<Cfg> = if cx.quick() {
+        vec![dense(2, 2, 10), dense(3, 3, 7), dense(5, 1, 8), sparse(&[0, 64], 2, 9), sparse(&[1, 33, 65], 1, 9), sparse(&[0, 8, 16, 128], 1, 8), long_frame(10, 2, 2, 8), long_frame(20, 1, 2, 8)]
+    } else {
+        vec![dense(2, 2, 11), dense(3, 3, 8), dense(6, 1, 9), sparse(&[0, 64], 2, 10), sparse(&[1, 33, 65], 1, 10), sparse(&[0, 8, 16, 128], 1, 9), sparse(&[0, 32, 64, 128, 256], 1, 8), long_frame(10, 2, 2, 9), long_frame(20, 1, 2, 9), long_frame(40, 2, 1, 9)]
+    };
     let cap = 60_000_000usize;
     let mut t = Tally::new();
     let mut runs = Vec::new();
     let mut states = 0u64;
     let mut transitions = 0u64;
-    for &(s, v, d) in &configs {
-        let a = explore(s, v, d, frmc_core::par::n_threads(), cap);
+    for c in &configs {
+        let (s, v, d) = (c.slot_ids.len(), c.values, c.depth);
+        let a = explore(c, frmc_core::par::n_threads(), cap);
         // second run, single-threaded for the small configuration / fewer threads otherwise:
         // parallel BFS with a depth target can expand a state first at a deeper level
         // (thorough tier only; with the depth in the key both searches visit the same set)
-        let b = if cx.quick() { RunOut { unique: a.unique, generated: a.generated, max_depth: a.max_depth, discovery: None, capped: a.capped } } else { explore(s, v, d, if a.unique < 3_000_000 { 1 } else { 4 }, cap) };
+        let b = if cx.quick() { RunOut { unique: a.unique, generated: a.generated, max_depth: a.max_depth, discovery: None, capped: a.capped } } else { explore(c, if a.unique < 3_000_000 { 1 } else { 4 }, cap) };
         states += a.unique as u64;
         transitions += a.generated as u64;
         t.evaluations += a.generated as u64;
         t.programs += 1;
         t.nontrivial += a.unique as u64;
-        runs.push(jobj! {"slots" => s, "values" => v, "operations_bound" => d, "unique_states" => a.unique, "generated" => a.generated, "max_depth" => a.max_depth,
+        runs.push(jobj! {"slots" => s, "slot_ids" => c.slot_ids.clone(), "individually_saved_slots" => c.single, "burst_operations" => c.burst, "values" => v, "operations_bound" => d, "unique_states" => a.unique, "generated" => a.generated, "max_depth" => a.max_depth,
             "second_run_unique_states" => b.unique, "counts_agree" => a.unique == b.unique, "capped" => a.capped});
         if a.capped {
             t.count("runs_capped_by_state_count", 1);
@@ -63,8 +93,8 @@ pub fn run_c20(cx: &Ctx) -> i32 {
                 let ops_s: Vec<String> = ops.iter().map(|o| format!("{:?}", o)).collect();
                 t.violation(
                     ops.len(),
-                    jobj! {"kind" => "c20", "slots" => s, "values" => v, "ops" => ops_s.clone(), "observed" => why.as_str(),
-                    "summary" => format!("{} slots: {} => {}", s, ops_s.join(", "), why)},
+                    jobj! {"kind" => "c20", "slots" => s, "slot_ids" => c.slot_ids.clone(), "single" => c.single, "burst" => c.burst, "values" => v, "ops" => ops_s.clone(), "observed" => why.as_str(),
+                    "summary" => format!("slots {:?}: {} => {}", c.slot_ids, ops_s.join(", "), why)},
                 );
                 break;
             }
@@ -74,7 +104,7 @@ pub fn run_c20(cx: &Ctx) -> i32 {
         }
     }
     // sample operation sequences (first few of the alphabet walk)
-    let m = VmModel { slots: 2, values: 2, max_ops: 64 };
+    let m = VmModel::dense(2, 2, 64);
     let mut st = m.init();
     let mut walk = Vec::new();
     for op in [Op::Save(0, 1), Op::Push(1, 11), Op::Save(0, 2), Op::BeginAtomic, Op::Push(2, 12), Op::Save(1, 1), Op::EndAtomic, Op::Pop] {
@@ -96,6 +126,11 @@ pub fn run_c20(cx: &Ctx) -> i32 {
     let t3 = refsweep::run(cx, &tall_space, &tall_cfg);
     t2.count("tall_sweep_monitored_runs", t3.evaluations);
     t2.merge(t3);
+    // ... and with many capture groups in one frame (slot numbers up to 70, undo logs of 60+ entries)
+    let wsp = wide::wide_space(cx.quick());
+    let t4 = wide::sweep(&wsp, wide::Mode::Shadow, 3);
+    t2.count("wide_sweep_monitored_runs", t4.evaluations);
+    t2.merge(t4);
     let monitored = t2.evaluations;
     let shadow_checks = *t2.counters.get("shadow_checks").unwrap_or(&0);
     t.count("monitored_runs", monitored);
@@ -105,9 +140,10 @@ pub fn run_c20(cx: &Ctx) -> i32 {
         t,
         Finish {
             rule: format!(
-                "E2: breadth-first search (stateright) over all operation sequences {{Save(slot,value), Push, Pop, BeginAtomic, EndAtomic}} applied to the crate's real vm::State (hook H3) in lock-step with a whole-state-copy reference; configurations (slots, values, number of operations) {:?}; dedup key = real snapshot (slots, auxiliary stack, branches (pc,ix,nsave), undo log, nsave) + reference state, history-free; invariant in every state: every slot, the number of alternatives, the (pc,ix) returned by Pop and the count popped by EndAtomic agree; in the thorough tier each configuration is searched twice with different thread counts and the unique-state counts compared (the depth is part of the key, so a parallel search cannot lose a state). Program level: the same whole-copy discipline as a shadow monitor (hook H5) inside real vm::run executions of {} x texts up to length 3 x every offset: after every pop the live state must equal the copy taken at push time, every cut must leave the slots unchanged and exactly `count` alternatives. distinct_nontrivial = unique states",
+                "E2: breadth-first search (stateright) over all operation sequences {{Save(slot,value), Push, Pop, BeginAtomic, EndAtomic}} applied to the crate's real vm::State (hook H3) in lock-step with a whole-state-copy reference; configurations (slots, values, number of operations) {:?}; dedup key = real snapshot (slots, auxiliary stack, branches (pc,ix,nsave), undo log, nsave) + reference state, history-free; invariant in every state: every slot, the number of alternatives, the (pc,ix) returned by Pop and the count popped by EndAtomic agree; in the thorough tier each configuration is searched twice with different thread counts and the unique-state counts compared (the depth is part of the key, so a parallel search cannot lose a state). Program level: the same whole-copy discipline as a shadow monitor (hook H5) inside real vm::run executions of {} x texts up to length 3 x every offset: after every pop the live state must equal the copy taken at push time, every cut must leave the slots unchanged and exactly `count` alternatives; the same monitor during the tall sweep (long regular texts) and during a {}. distinct_nontrivial = unique states",
                 configs,
-                sp.describe()
+                sp.describe(),
+                wide::describe(&wsp, 3)
             ),
             exhaustive: true,
             bounds: jobj! {"configurations" => J::Arr(runs.clone())},
@@ -128,7 +164,11 @@ pub fn run_c20(cx: &Ctx) -> i32 {
 pub fn replay(case: &J) -> i32 {
     let slots = case.int_of("slots") as usize;
     let values = case.int_of("values") as usize;
-    let m = VmModel { slots, values, max_ops: 1 << 20 };
+    let mut m = VmModel::dense(slots, values, 1 << 20);
+    if let Some(ids) = case.get("slot_ids").and_then(|a| a.as_arr()) {
+        m.slot_ids = ids.iter().filter_map(|x| x.as_i64()).map(|x| x as usize).collect();
+        m.slots = m.slot_ids.len();
+    }
     let mut st = m.init();
     let ops = case.get("ops").and_then(|o| o.as_arr()).cloned().unwrap_or_default();
     for o in ops {
@@ -142,6 +182,8 @@ pub fn replay(case: &J) -> i32 {
             Op::Pop
         } else if s.starts_with("BeginAtomic") {
             Op::BeginAtomic
+        } else if s.starts_with("Burst") {
+            Op::Burst(nums[0])
         } else {
             Op::EndAtomic
         };
